@@ -48,6 +48,8 @@ type Case struct {
 	SigProc string `json:"sig_proc,omitempty"`
 	SigMsg  string `json:"sig_msg,omitempty"`
 	Note    string `json:"note,omitempty"`
+	// Prefix: the tokens that went through the SAME verifier instance before this one (sequence cases).
+	Prefix []string `json:"prefix,omitempty"`
 	// World carries the public keys of the run (attached to failing cases only) so that a replay is self-contained.
 	World []KeyPub `json:"world,omitempty"`
 }
@@ -1155,11 +1157,15 @@ func main() {
 				w.shared = jwt.NewVerifier(jwt.KeyResolverFunc(w.fetch))
 			}
 
+			var prefix []string
+
 			for pos, i := range seq {
 				c := *pool[i]
 				c.Entry = entry
 				c.Note = fmt.Sprintf("%s@%d", c.Note, pos)
+				c.Prefix = append([]string(nil), prefix...)
 				w.run("sequence", &c, true, tr)
+				prefix = append(prefix, c.Tok)
 			}
 
 			w.shared = nil
@@ -1247,6 +1253,16 @@ func (s *joseSigner) Headers() jose.Headers         { return jose.Headers{"alg":
 func (w *world) replay(kind string, c *Case, tr *hx.Trace) {
 	// a replayed case names its signature by description; keys differ between runs, so a corpus case is a
 	// recipe: it is re-signed when it carries a recipe, otherwise executed as is.
+	if len(c.Prefix) > 0 && c.Cfg == "basic" && c.Entry != "did" {
+		w.shared = jwt.NewVerifier(jwt.KeyResolverFunc(w.fetch))
+
+		for _, t := range c.Prefix {
+			p := *c
+			p.Tok, p.Prefix = t, nil
+			w.execute(&p)
+		}
+	}
+
 	w.run(kind, c, c.SigKey == "", tr)
 }
 
